@@ -4,7 +4,9 @@
 // Oracle: an independent model (std::string) of filter acceptance and of the selection rule, per-test
 // execution counters inside scripted shells, the TestResult counters, a recording TestOutput whose
 // callback sequence is parsed against the grammar  TestsStarted (GroupStart (TestStart TestEnd)* GroupEnd)* TestsEnded,
-// and a walk of the registry's linked list after every relinking operation.
+// and a walk of the registry's linked list after every relinking operation. Histories: repetitions on one registry, several
+// CommandLineTestRunner invocations on one registry, and a registry driven through its own setters (group / name filter lists exchanged
+// independently between runs, unDoLastAddTest / addTest between runs). Filter modes are requested once or repeatedly on the same object.
 #include "verif.h"
 #include <deque>
 #include <memory>
@@ -20,7 +22,13 @@
 
 // ---------------------------------------------------------------- case description
 struct TestSpec { const char* group; const char* name; bool ignored; bool fails; };
-struct FilterSpec { const char* text; bool strict; bool invert; };
+struct FilterSpec {
+    const char* text; bool strict; bool invert;
+    // how the modes are REQUESTED: strictMatching() is called 1 + s_extra times when strict, invertMatching() 1 + x_extra times when invert;
+    // the calls are interleaved by the bits of 'order' (bit set: the next call is invertMatching() while both kinds are left).
+    // TestFilter has no call that takes a mode back: a mode is on iff it was requested at least once (see assumptions).
+    unsigned char s_extra = 0, x_extra = 0, order = 0;
+};
 enum OpKind { OP_REVERSE, OP_SHUFFLE };
 struct OpSpec { int kind; uint64_t seed; };
 struct Phase {                         // one repetition: optional reconfiguration, order operations, then one run
@@ -34,6 +42,20 @@ struct Case {
     std::vector<Phase> phases;
     int rand_mode = 0;                 // 0: real srand/rand; >0: scripted PlatformSpecificRand (see stub_rand)
     uint64_t rand_seed = 0;
+};
+enum MutKind { MU_SET_G, MU_SET_N, MU_NULL_G, MU_NULL_N, MU_SAME_G, MU_SAME_N, MU_MODIFY_G, MU_MODIFY_N, MU_REVERSE, MU_SHUFFLE, MU_UNDO, MU_ADD, MU_RUN_IGNORED };
+struct Mut {                           // one operation on a live registry between two runs
+    int kind = 0;
+    std::vector<FilterSpec> list;      // MU_SET_*: the new (non-empty) list
+    uint64_t seed = 0;                 // MU_SHUFFLE
+    size_t which = 0;                  // MU_MODIFY_*: which filter of the installed list; MU_ADD: which of the unregistered tests
+    int how = 0;                       // MU_MODIFY_*: 0 strictMatching() on that filter, 1 invertMatching() on it, 2 a new filter in front
+    FilterSpec extra{ "", false, false };
+};
+struct SetterCase {                    // a history of runs on ONE registry driven through its own setters
+    std::vector<TestSpec> tests;
+    size_t held_back = 0;              // the last tests are created but not registered at first (addTest brings them in later)
+    std::vector<std::vector<Mut>> phases;   // operations before each run
 };
 struct Invocation {                    // one CommandLineTestRunner built from one argv
     std::vector<FilterSpec> gf, nf;
@@ -77,6 +99,11 @@ static bool m_selected(const std::vector<FilterSpec>& gf, const std::vector<Filt
 }
 static std::string shape(const FilterSpec& f) {
     return std::string(f.strict ? "strict" : "substring") + (f.invert ? "+invert" : "");
+}
+static bool repeated_requests(const FilterSpec& f) { return (f.strict && f.s_extra) || (f.invert && f.x_extra); }
+static std::string requests(const FilterSpec& f) {          // human readable, for descriptions and details
+    if (!repeated_requests(f)) return "";
+    return std::string("|strictMatching()x") + std::to_string(f.strict ? 1 + f.s_extra : 0) + ",invertMatching()x" + std::to_string(f.invert ? 1 + f.x_extra : 0) + ",order=" + std::to_string(f.order);
 }
 static std::string relation(const FilterSpec& f, const char* s) {
     std::string S(s), F(f.text);
@@ -140,11 +167,12 @@ public:
 };
 
 // walk the registry's list; status 0 ok, 1 foreign node, 2 duplicate, 3 longer than N, 4 shorter than N
-static int walk_list(World& w, std::vector<int>& order) {
+static int walk_list(World& w, std::vector<int>& order, size_t expect = (size_t) -1) {
     order.clear();
     size_t n = w.shells.size();
-    std::vector<char> seen(n, 0);
+    std::vector<char> seen(n + 1, 0);
     size_t steps = 0;
+    if (expect != (size_t) -1) n = expect;                  // (setter histories: only a subset of the shells is registered)
     for (UtestShell* t = w.reg->getFirstTest(); t != nullptr; t = t->getNext()) {
         if (steps == n) return 3;
         int i = w.lookup(t);
@@ -230,12 +258,21 @@ struct FilterChain {
     std::deque<TestFilter> store;
     TestFilter* head = nullptr;
     explicit FilterChain(const std::vector<FilterSpec>& fs) {
-        for (const FilterSpec& f : fs) {
-            store.emplace_back(f.text);
-            if (f.strict) store.back().strictMatching();
-            if (f.invert) store.back().invertMatching();
-            head = store.back().add(head);
+        for (const FilterSpec& f : fs) push(f);
+    }
+    static void request_modes(TestFilter& t, const FilterSpec& f) {
+        int sc = f.strict ? 1 + f.s_extra : 0, xc = f.invert ? 1 + f.x_extra : 0;
+        unsigned o = f.order;
+        while (sc || xc) {
+            bool pick_x = xc && (!sc || (o & 1u));
+            o >>= 1;
+            if (pick_x) { t.invertMatching(); xc--; } else { t.strictMatching(); sc--; }
         }
+    }
+    void push(const FilterSpec& f) {                        // the new filter becomes the head of the list (deque: older elements do not move)
+        store.emplace_back(f.text);
+        request_modes(store.back(), f);
+        head = store.back().add(head);
     }
 };
 
@@ -256,6 +293,20 @@ static bool check_selection_functions(Checker& k, const std::vector<FilterSpec>&
             const char* target = role ? T[i].name : T[i].group;
             for (size_t f = 0; f < fs.size() && !explained; f++) {
                 bool rm = ch.store[f].match(target), mm = m_accept(fs[f], target);
+                if (rm != mm && repeated_requests(fs[f])) {
+                    // the same modes requested once each on a fresh filter: if that filter follows the model, the defect is in what a
+                    // REPEATED request does to a filter, not in the matching itself
+                    TestFilter once(fs[f].text);
+                    if (fs[f].strict) once.strictMatching();
+                    if (fs[f].invert) once.invertMatching();
+                    if (once.match(target) == mm) {
+                        k.viol("filter-mode-requested-repeatedly-differs-from-requested-once:" + shape(fs[f]) + ":" +
+                                   (fs[f].strict && fs[f].s_extra ? (fs[f].invert && fs[f].x_extra ? "strict-and-invert-repeated" : "strict-repeated") : "invert-repeated"),
+                               std::string("TestFilter(\"") + fs[f].text + "\") " + requests(fs[f]) + " match(\"" + target + "\") = " + (rm ? "true" : "false") + ", the same filter with each mode requested once and the model: " + (mm ? "true" : "false"));
+                        explained = true;
+                        continue;
+                    }
+                }
                 if (rm != mm) {
                     k.viol("filter-match-wrong:" + shape(fs[f]) + ":" + relation(fs[f], target),
                            std::string("TestFilter(\"") + fs[f].text + "\")." + shape(fs[f]) + " match(\"" + target + "\") = " + (rm ? "true" : "false") + ", model " + (mm ? "true" : "false"));
@@ -291,14 +342,19 @@ struct RunExpect {
     // does not give were left over from the latest earlier invocation that gave one; null when that is the same as gf/nf
     const std::vector<FilterSpec>* leftover_gf = nullptr; const std::vector<FilterSpec>* leftover_nf = nullptr;
     const char* leftover_kinds = "";
+    // setter histories: which shells are registered right now (null: all), and what was done to the filter lists since the previous run
+    const std::vector<char>* present = nullptr;
+    std::string history_tag;
 };
 static std::string filters_json(const std::vector<FilterSpec>& F);
 static void check_run(Checker& k, const RunExpect& x, size_t from, size_t to, const std::vector<int>& body_before) {
     World& w = k.w; vf::Ctx& c = k.c;
     const std::vector<TestSpec>& T = *w.specs;
     size_t n = T.size();
-    std::vector<char> sel(n);
-    for (size_t i = 0; i < n; i++) sel[i] = m_selected(*x.gf, *x.nf, T[i]);
+    std::vector<char> sel(n), present(n, 1);
+    if (x.present) present = *x.present;
+    size_t n_reg = 0;
+    for (size_t i = 0; i < n; i++) { sel[i] = present[i] && m_selected(*x.gf, *x.nf, T[i]); if (present[i]) n_reg++; }
 
     // ---- grammar
     int state = 0;                                   // 0 before TestsStarted, 1 between groups, 2 in group, 3 in test, 4 after TestsEnded
@@ -354,6 +410,7 @@ static void check_run(Checker& k, const RunExpect& x, size_t from, size_t to, co
     for (int i : *x.order) if (sel[(size_t) i]) exp_ts.push_back(i);
     size_t exp_run = 0, exp_ign = 0, exp_filt = 0;
     for (size_t i = 0; i < n; i++) {
+        if (!present[i]) continue;
         if (!sel[i]) exp_filt++;
         else if (T[i].ignored && !x.run_ignored) exp_ign++;
         else exp_run++;
@@ -386,8 +443,9 @@ static void check_run(Checker& k, const RunExpect& x, size_t from, size_t to, co
         if (ts_cnt[i] != exp_started) {
             counts_ok = false;
             if (!x.shouldrun_agrees) continue;      // the selection function itself is wrong: reported with a selection key
-            if (!sel[i]) k.viol("exec:rejected-test-started", "test " + k.tname((int) i) + " is rejected by the filters but was started " + std::to_string(ts_cnt[i]) + " time(s)");
-            else if (ts_cnt[i] == 0) k.viol("exec:selected-test-never-started", "test " + k.tname((int) i) + " is selected but was not started; list order " + k.ostr(*x.order));
+            if (!present[i]) k.viol("exec:unregistered-test-started", "test " + k.tname((int) i) + " is not in the registry (removed by unDoLastAddTest or never added) but was started " + std::to_string(ts_cnt[i]) + " time(s)");
+            else if (!sel[i]) k.viol("exec:rejected-test-started" + x.history_tag, "test " + k.tname((int) i) + " is rejected by the filters (group " + filters_json(*x.gf) + ", name " + filters_json(*x.nf) + ") but was started " + std::to_string(ts_cnt[i]) + " time(s); list order " + k.ostr(*x.order));
+            else if (ts_cnt[i] == 0) k.viol("exec:selected-test-never-started" + x.history_tag, "test " + k.tname((int) i) + " is selected (group filters " + filters_json(*x.gf) + ", name filters " + filters_json(*x.nf) + ") but was not started; list order " + k.ostr(*x.order));
             else k.viol("exec:selected-test-started-more-than-once", "test " + k.tname((int) i) + " started " + std::to_string(ts_cnt[i]) + " times in one repetition");
             continue;
         }
@@ -407,9 +465,9 @@ static void check_run(Checker& k, const RunExpect& x, size_t from, size_t to, co
     if (endev) {
         size_t tc = endev->a, rc = endev->b, ic = endev->c, fc = endev->d;
         std::string all = "tests=" + std::to_string(tc) + " run=" + std::to_string(rc) + " ignored=" + std::to_string(ic) + " filtered=" + std::to_string(fc) +
-                          "; model tests=" + std::to_string(n) + " run=" + std::to_string(exp_run) + " ignored=" + std::to_string(exp_ign) + " filtered=" + std::to_string(exp_filt);
+                          "; model tests=" + std::to_string(n_reg) + " run=" + std::to_string(exp_run) + " ignored=" + std::to_string(exp_ign) + " filtered=" + std::to_string(exp_filt);
         if (rc + ic + fc != tc) k.viol("counter-identity:run+ignored+filtered!=tests", all);
-        if (tc != n) k.viol("counter:test-count", all);
+        if (tc != n_reg) k.viol("counter:test-count", all);
         if (x.shouldrun_agrees && counts_ok) {        // (when the execution itself deviates, that is the finding; the counters follow it)
             if (rc != exp_run) k.viol(std::string("counter:run-count:") + (rc > exp_run ? "too-high" : "too-low"), all);
             if (ic != exp_ign) k.viol(std::string("counter:ignored-count:") + (ic > exp_ign ? "too-high" : "too-low"), all);
@@ -422,10 +480,10 @@ static void check_run(Checker& k, const RunExpect& x, size_t from, size_t to, co
     for (size_t p = 0; p < x.order->size(); p++) if (p == 0 || std::string(T[(size_t) (*x.order)[p]].group) != T[(size_t) (*x.order)[p - 1]].group) runs++;
     c.count(segments == runs ? "group_segments_equal_maximal_runs_of_group_names" : "group_segments_differ_from_maximal_runs");
     c.count("repetitions_judged");
-    c.count("tests_registered_in_judged_repetitions", n);
+    c.count("tests_registered_in_judged_repetitions", n_reg);
     c.count("tests_run", exp_run); c.count("tests_ignored", exp_ign); c.count("tests_filtered_out", exp_filt);
     c.count("group_segments", segments);
-    if (exp_run + exp_ign == 0 && n > 0) c.count("repetitions_selecting_nothing");
+    if (exp_run + exp_ign == 0 && n_reg > 0) c.count("repetitions_selecting_nothing");
     if (x.run_ignored) c.count("repetitions_with_run_ignored");
     for (int i : body_seq) if (i >= 0 && T[(size_t) i].fails) c.count("failing_tests_run");
 }
@@ -434,7 +492,7 @@ static void check_walk(Checker& k, int st, const char* after, const std::vector<
     if (st != 0) k.viol(std::string("list-walk:after-") + after + ":" + walk_word(st), "walk from getFirstTest() over " + std::to_string(k.w.shells.size()) + " registered tests: " + walk_word(st) + " after " + std::to_string(got.size()) + " steps " + k.ostr(got));
 }
 
-static void build_world(World& w, const std::vector<TestSpec>& tests, TestRegistry* reg) {
+static void build_world(World& w, const std::vector<TestSpec>& tests, TestRegistry* reg, size_t n_register = (size_t) -1) {
     size_t n = tests.size();
     w.specs = &tests; w.reg = reg;
     w.shells.reserve(n); w.by_addr.reserve(n);
@@ -447,7 +505,7 @@ static void build_world(World& w, const std::vector<TestSpec>& tests, TestRegist
         w.by_addr.push_back(std::make_pair((const UtestShell*) s, (int) i));
     }
     std::sort(w.by_addr.begin(), w.by_addr.end());
-    for (size_t i = 0; i < n; i++) reg->addTest(w.shells[i]);
+    for (size_t i = 0; i < n && i < n_register; i++) reg->addTest(w.shells[i]);
 }
 static void destroy_world(World& w) {
     for (UtestShell* s : w.shells) delete s;
@@ -461,12 +519,12 @@ static std::string tests_json(const std::vector<TestSpec>& T) {
 }
 static std::string filters_json(const std::vector<FilterSpec>& F) {
     std::vector<std::string> v;
-    for (const FilterSpec& f : F) v.push_back(vf::jstr(std::string(f.text) + "|" + shape(f)));
+    for (const FilterSpec& f : F) v.push_back(vf::jstr(std::string(f.text) + "|" + shape(f) + requests(f)));
     return vf::jarr(v);
 }
 static std::string filters_sig(const std::vector<FilterSpec>& F) {
     std::vector<std::string> v;
-    for (const FilterSpec& f : F) v.push_back(std::string(f.text) + "\1" + shape(f));
+    for (const FilterSpec& f : F) v.push_back(std::string(f.text) + "\1" + shape(f) + requests(f));
     std::sort(v.begin(), v.end());
     std::string s;
     for (auto& x : v) { s += x; s += "\2"; }
@@ -482,7 +540,12 @@ static bool discriminating(const std::vector<FilterSpec>& F, const std::vector<T
     return false;
 }
 static void count_filter_shapes(vf::Ctx& c, const std::vector<FilterSpec>& F, const char* role) {
-    for (const FilterSpec& f : F) c.count(std::string("filters_") + role + "_" + shape(f));
+    for (const FilterSpec& f : F) {
+        c.count(std::string("filters_") + role + "_" + shape(f));
+        if (repeated_requests(f)) c.count("filters_with_a_mode_requested_more_than_once");
+        if (f.invert && f.x_extra) c.count((f.x_extra & 1) ? "filters_with_invertMatching_requested_an_even_number_of_times" : "filters_with_invertMatching_requested_an_odd_number_of_times_above_1");
+        if (f.strict && f.s_extra) c.count("filters_with_strictMatching_requested_more_than_once");
+    }
     c.count(std::string("filter_lists_") + role + "_of_" + std::to_string(F.size()));
 }
 
@@ -779,14 +842,20 @@ static void gen_tests(vf::Rng& r, size_t n, const Pools& p, std::vector<TestSpec
         T.push_back(TestSpec{ g, r.pick(p.names), r.chance(pign), r.chance(pfail) });
     }
 }
-static std::vector<FilterSpec> gen_filters(vf::Rng& r, const std::vector<const char*>& pool, const char* const* alphabet, size_t na) {
+// repeats: a quarter of the filters gets its mode setters called more than once (1..3 calls each, interleaved at random), the way layered
+// list-building code does (a per-filter flag plus a list-wide switch); never for the runner sections (an argv requests every mode once)
+static FilterSpec gen_filter(vf::Rng& r, const std::vector<const char*>& pool, const char* const* alphabet, size_t na, bool repeats) {
+    const char* t = r.chance(70) ? r.pick(pool) : alphabet[r.below(na)];
+    FilterSpec f{ t, r.chance(35), r.chance(35) };
+    if (repeats && r.chance(25)) { f.s_extra = (unsigned char) r.below(3); f.x_extra = (unsigned char) r.below(3); f.order = (unsigned char) r.below(256); }
+    return f;
+}
+static std::vector<FilterSpec> gen_filters(vf::Rng& r, const std::vector<const char*>& pool, const char* const* alphabet, size_t na, bool repeats = true, bool non_empty = false) {
     std::vector<FilterSpec> F;
     int p = (int) r.below(100);
     size_t k = p < 35 ? 0 : p < 70 ? 1 : p < 90 ? 2 : 3;
-    for (size_t i = 0; i < k; i++) {
-        const char* t = r.chance(70) ? r.pick(pool) : alphabet[r.below(na)];
-        F.push_back(FilterSpec{ t, r.chance(35), r.chance(35) });
-    }
+    if (non_empty && k == 0) k = 1;
+    for (size_t i = 0; i < k; i++) F.push_back(gen_filter(r, pool, alphabet, na, repeats));
     return F;
 }
 static std::vector<OpSpec> gen_ops(vf::Rng& r) {
@@ -899,9 +968,267 @@ static void sec_filter_cross(vf::Ctx& c) {
     exec_direct(c, cs, true);
 }
 
+// exhaustive: one filter x one target, strictMatching() requested 0..3 times and invertMatching() requested 0..3 times on the SAME filter
+// object, four interleavings of the calls; as group filter and as name filter
+static const unsigned char ORDERS[] = { 0x00, 0xFF, 0xAA, 0x55 };
+static const uint64_t N_REQ = (uint64_t) NK2 * NK2 * 4 * 4 * 4 * 2;
+static void sec_filter_requests(vf::Ctx& c) {
+    uint64_t i = c.idx;
+    const char* pat = K2[i % NK2]; i /= NK2; const char* tgt = K2[i % NK2]; i /= NK2;
+    unsigned sc = (unsigned) (i % 4); i /= 4; unsigned xc = (unsigned) (i % 4); i /= 4; unsigned char ord = ORDERS[i % 4]; i /= 4; bool name_role = i & 1;
+    auto cs = std::make_shared<Case>();
+    cs->tests.push_back(TestSpec{ name_role ? "G" : tgt, name_role ? tgt : "N", false, false });
+    cs->tests.push_back(TestSpec{ "G", "N", false, false });
+    FilterSpec f{ pat, sc > 0, xc > 0 };
+    f.s_extra = (unsigned char) (sc ? sc - 1 : 0); f.x_extra = (unsigned char) (xc ? xc - 1 : 0); f.order = ord;
+    Phase ph; (name_role ? ph.nf : ph.gf).push_back(f);
+    cs->phases.push_back(ph);
+    exec_direct(c, cs, true);
+}
+
+// histories on ONE live registry driven through its own setters: between two runs the group filter list and the name filter list are
+// exchanged INDEPENDENTLY of each other (a new list, NULL, the same list object again, the installed list extended / a mode requested on
+// one of its filters and the list installed again), tests are removed (unDoLastAddTest) and added, the order is changed, run-ignored is
+// switched on. Every run is judged against the lists installed at that moment and the tests registered at that moment.
+static const char* const MUT_NAME[] = { "setGroupFilters(new list)", "setNameFilters(new list)", "setGroupFilters(NULL)", "setNameFilters(NULL)", "setGroupFilters(same list again)",
+                                        "setNameFilters(same list again)", "group list modified + setGroupFilters", "name list modified + setNameFilters", "reverseTests", "shuffleTests",
+                                        "unDoLastAddTest", "addTest", "setRunIgnored" };
+static std::string mut_json(const Mut& m) {
+    vf::J j; j.k("op", std::string(MUT_NAME[m.kind]));
+    if (m.kind == MU_SET_G || m.kind == MU_SET_N) j.raw("list", filters_json(m.list));
+    if (m.kind == MU_MODIFY_G || m.kind == MU_MODIFY_N) { j.k("how", std::string(m.how == 0 ? "strictMatching() on one filter" : m.how == 1 ? "invertMatching() on one filter" : "new filter in front")); j.k("which", (uint64_t) m.which); if (m.how == 2) j.raw("filter", filters_json(std::vector<FilterSpec>{ m.extra })); }
+    if (m.kind == MU_SHUFFLE) j.k("seed", std::to_string(m.seed));
+    if (m.kind == MU_ADD) j.k("which_of_the_unregistered", (uint64_t) m.which);
+    return j.str();
+}
+struct LiveList { std::vector<FilterSpec> spec; FilterChain chain; explicit LiveList(const std::vector<FilterSpec>& s) : spec(s), chain(s) {} };
+
+static void exec_setters(vf::Ctx& c, std::shared_ptr<SetterCase> sc) {
+    c.begin([sc] {
+        std::vector<std::string> ph;
+        for (const std::vector<Mut>& ms : sc->phases) { std::vector<std::string> v; for (const Mut& m : ms) v.push_back(mut_json(m)); ph.push_back(vf::jarr(v)); }
+        return vf::J().raw("tests_in_registration_order", tests_json(sc->tests)).k("last_tests_not_registered_at_first", (uint64_t) sc->held_back)
+                      .raw("operations_before_each_run_on_the_same_registry", vf::jarr(ph)).str();
+    });
+    const std::vector<TestSpec>& T = sc->tests;
+    size_t n = T.size();
+    World w; g_w = &w;
+    Checker k(c, w);
+    {
+        TestRegistry reg;
+        size_t n_reg = n - sc->held_back;
+        build_world(w, T, &reg, n_reg);
+        w.snapshot_at_start = false;
+        RecOutput out;
+        std::vector<char> present(n, 0);
+        for (size_t i = 0; i < n_reg; i++) present[i] = 1;
+        std::vector<int> order, prev;
+        int st = walk_list(w, order, n_reg);
+        check_walk(k, st, "registration", order);
+        bool list_ok = st == 0;
+        if (list_ok && reg.countTests() != n_reg) k.viol("count-tests:after-registration", "countTests() = " + std::to_string(reg.countTests()) + " for " + std::to_string(n_reg) + " registered tests");
+
+        std::vector<std::unique_ptr<LiveList>> lists;         // every list stays alive until the registry is gone
+        const std::vector<FilterSpec> none;
+        LiveList empty_list(none);
+        LiveList* cur[2] = { nullptr, nullptr };              // [0] group, [1] name; null: NULL is installed
+        std::vector<FilterSpec> prev_spec[2];                 // what was in force in the previous run
+        bool have_prev_run = false, run_ignored = false, nontrivial = false;
+        std::string sig = std::to_string(n) + "-" + std::to_string(sc->held_back) + "|";
+        auto spec_of = [&](int role) -> const std::vector<FilterSpec>& { return cur[role] ? cur[role]->spec : none; };
+        auto install = [&](int role, LiveList* l) {
+            cur[role] = l;
+            const TestFilter* head = l ? l->chain.head : nullptr;
+            if (role == 0) reg.setGroupFilters(head); else reg.setNameFilters(head);
+        };
+
+        for (size_t pi = 0; pi < sc->phases.size() && list_ok; pi++) {
+            bool set_called[2] = { false, false };
+            for (const Mut& m : sc->phases[pi]) {
+                int role = (m.kind == MU_SET_N || m.kind == MU_NULL_N || m.kind == MU_SAME_N || m.kind == MU_MODIFY_N) ? 1 : 0;
+                const char* rn = role ? "name" : "group";
+                switch (m.kind) {
+                case MU_SET_G: case MU_SET_N:
+                    lists.emplace_back(new LiveList(m.list));
+                    c.count(std::string("setter_") + rn + (cur[role] ? "_list_replaced_by_another_list" : "_list_installed_where_NULL_was"));
+                    install(role, lists.back().get()); set_called[role] = true;
+                    sig += std::string(role ? "N" : "G") + filters_sig(m.list) + "|";
+                    break;
+                case MU_NULL_G: case MU_NULL_N:
+                    c.count(std::string("setter_") + rn + (cur[role] ? "_list_replaced_by_NULL" : "_NULL_set_again"));
+                    install(role, nullptr); set_called[role] = true;
+                    sig += role ? "N0|" : "G0|";
+                    break;
+                case MU_SAME_G: case MU_SAME_N:
+                    c.count(std::string("setter_") + rn + (cur[role] ? "_same_list_object_set_again" : "_NULL_set_again"));
+                    install(role, cur[role]); set_called[role] = true;
+                    sig += role ? "N=|" : "G=|";
+                    break;
+                case MU_MODIFY_G: case MU_MODIFY_N: {
+                    if (!cur[role]) { lists.emplace_back(new LiveList(none)); cur[role] = lists.back().get(); }
+                    LiveList& L = *cur[role];
+                    int how = L.spec.empty() ? 2 : m.how;
+                    if (how == 2) { L.spec.push_back(m.extra); L.chain.push(m.extra); c.count("installed_list_extended_by_a_filter_and_set_again"); }
+                    else {
+                        size_t f = m.which % L.spec.size();
+                        FilterSpec& fs = L.spec[f];
+                        if (how == 0) { L.chain.store[f].strictMatching(); if (fs.strict) fs.s_extra++; else fs.strict = true; }
+                        else { L.chain.store[f].invertMatching(); if (fs.invert) fs.x_extra++; else fs.invert = true; }
+                        c.count("mode_requested_on_a_filter_of_the_installed_list_and_list_set_again");
+                    }
+                    install(role, &L); set_called[role] = true;
+                    sig += std::string(role ? "N~" : "G~") + filters_sig(L.spec) + "|";
+                    break; }
+                case MU_REVERSE: case MU_SHUFFLE: {
+                    prev = order;
+                    if (m.kind == MU_REVERSE) { reg.reverseTests(); c.count("ops_reverse"); sig += "rev|"; }
+                    else { reg.shuffleTests((size_t) m.seed); c.count("ops_shuffle"); sig += "shuf|"; }
+                    st = walk_list(w, order, n_reg);
+                    check_walk(k, st, m.kind == MU_REVERSE ? "reverse" : "shuffle", order);
+                    if (st != 0) { list_ok = false; break; }
+                    if (m.kind == MU_REVERSE) {
+                        std::vector<int> rv(prev.rbegin(), prev.rend());
+                        if (order != rv) k.viol("reverse:not-the-exact-reverse", "before " + k.ostr(prev) + " after " + k.ostr(order));
+                    } else {
+                        if (order != prev) c.count("shuffles_that_changed_the_order"); else c.count("shuffles_that_kept_the_order");
+                    }
+                    for (int i : order) if (!present[(size_t) i]) { k.viol(std::string("list-walk:after-") + (m.kind == MU_REVERSE ? "reverse" : "shuffle") + ":unregistered-test-in-list", "test " + k.tname(i) + " is in the list " + k.ostr(order)); list_ok = false; }
+                    if (n_reg >= 3) nontrivial = true;
+                    break; }
+                case MU_UNDO: {
+                    if (n_reg == 0) { reg.unDoLastAddTest(); c.count("undo_last_add_on_an_empty_registry"); st = walk_list(w, order, 0); check_walk(k, st, "undo-last-add", order); if (st != 0) list_ok = false; sig += "undo0|"; break; }
+                    prev = order;
+                    reg.unDoLastAddTest();
+                    n_reg--;
+                    st = walk_list(w, order, n_reg);
+                    check_walk(k, st, "undo-last-add", order);
+                    if (st != 0) { list_ok = false; break; }
+                    // exactly one of the registered tests is gone, nothing else joined (WHICH one left is not the property's business)
+                    std::vector<char> now(n, 0);
+                    for (int i : order) now[(size_t) i] = 1;
+                    for (size_t i = 0; i < n; i++) if (now[i] && !present[i]) { k.viol("list-walk:after-undo-last-add:unregistered-test-in-list", "test " + k.tname((int) i) + " appeared in the list " + k.ostr(order)); list_ok = false; }
+                    present = now;
+                    c.count(have_prev_run ? "undo_last_add_between_runs" : "undo_last_add_before_the_first_run");
+                    sig += "undo|";
+                    break; }
+                case MU_ADD: {
+                    std::vector<int> out_of_list;
+                    for (size_t i = 0; i < n; i++) if (!present[i]) out_of_list.push_back((int) i);
+                    if (out_of_list.empty()) { c.count("add_test_skipped_all_tests_registered"); break; }
+                    int t = out_of_list[m.which % out_of_list.size()];
+                    reg.addTest(w.shells[(size_t) t]);
+                    n_reg++; present[(size_t) t] = 1;
+                    st = walk_list(w, order, n_reg);
+                    check_walk(k, st, "add-test", order);
+                    if (st != 0) { list_ok = false; break; }
+                    for (int i : order) if (!present[(size_t) i]) { k.viol("list-walk:after-add-test:unregistered-test-in-list", "test " + k.tname(i) + " is in the list " + k.ostr(order)); list_ok = false; }
+                    c.count(have_prev_run ? "add_test_between_runs" : "add_test_before_the_first_run");
+                    sig += "add|";
+                    break; }
+                case MU_RUN_IGNORED: reg.setRunIgnored(); run_ignored = true; sig += "RI|"; break;
+                default: break;
+                }
+                if (!list_ok) break;
+                if (reg.countTests() != n_reg) k.viol(std::string("count-tests:after-") + (m.kind == MU_UNDO ? "undo-last-add" : m.kind == MU_ADD ? "add-test" : m.kind == MU_REVERSE ? "reverse" : m.kind == MU_SHUFFLE ? "shuffle" : "filter-setter"),
+                                                       "countTests() = " + std::to_string(reg.countTests()) + " for " + std::to_string(n_reg) + " registered tests");
+            }
+            if (!list_ok) break;
+            // ---- one run, judged against what is installed NOW
+            const std::vector<FilterSpec>& gf = spec_of(0); const std::vector<FilterSpec>& nf = spec_of(1);
+            bool shouldrun_agrees = check_selection_functions(k, gf, nf, cur[0] ? cur[0]->chain : empty_list.chain, cur[1] ? cur[1]->chain : empty_list.chain);
+            count_filter_shapes(c, gf, "group"); count_filter_shapes(c, nf, "name");
+            if (discriminating(gf, T, false) || discriminating(nf, T, true)) { nontrivial = true; c.count("configurations_with_discriminating_filter"); }
+            RunExpect x{ &order, &gf, &nf, run_ignored, shouldrun_agrees, "direct" };
+            x.present = &present;
+            if (have_prev_run) {
+                x.history_tag = set_called[0] && set_called[1] ? ":after-both-filter-setters-between-runs" : set_called[0] ? ":after-setGroupFilters-alone-between-runs"
+                              : set_called[1] ? ":after-setNameFilters-alone-between-runs" : ":after-a-run-without-filter-setter-calls";
+                c.count("setter_history_later_runs");
+                for (int role = 0; role < 2; role++) {
+                    if (!set_called[role] || set_called[1 - role]) continue;
+                    const char* rn = role ? "name" : "group";
+                    c.count(std::string("later_runs_after_") + rn + "_filter_setter_alone");
+                    const std::vector<FilterSpec>& now = spec_of(role);
+                    if (!now.empty() && !prev_spec[role].empty()) c.count(std::string("later_runs_after_") + rn + "_filter_setter_alone:list_to_list");
+                    // would the list of the previous run decide differently for some registered test / for the first test of the list?
+                    bool any = false, first = false;
+                    for (size_t q = 0; q < order.size(); q++) {
+                        const char* target = role ? T[(size_t) order[q]].name : T[(size_t) order[q]].group;
+                        if (m_any(now, target) != m_any(prev_spec[role], target)) { any = true; if (q == 0) first = true; }
+                    }
+                    if (any) c.count(std::string("later_runs_after_") + rn + "_filter_setter_alone_where_the_previous_list_decides_differently");
+                    if (first) c.count(std::string("later_runs_after_") + rn + "_filter_setter_alone_where_the_previous_list_decides_differently_for_the_first_test");
+                }
+            }
+            std::vector<int> body_before = w.body;
+            size_t from = w.log.size();
+            {
+                TestResult res(out);
+                try { reg.runAllTests(res); }
+                catch (const AbortRun&) { k.viol("run-does-not-terminate:direct", "runAllTests produced more than " + std::to_string(w.log_cap) + " callbacks for " + std::to_string(n) + " tests"); list_ok = false; }
+                check_run(k, x, from, w.log.size(), body_before);
+                if (res.getRunCount() + res.getIgnoredCount() + res.getFilteredOutCount() != res.getTestCount())
+                    k.viol("counter-identity:run+ignored+filtered!=tests", "TestResult getters after the run: tests=" + std::to_string(res.getTestCount()) + " run=" + std::to_string(res.getRunCount()) + " ignored=" + std::to_string(res.getIgnoredCount()) + " filtered=" + std::to_string(res.getFilteredOutCount()));
+            }
+            c.count("setter_history_runs");
+            prev_spec[0] = gf; prev_spec[1] = nf; have_prev_run = true;
+            sig += "run|";
+            std::vector<int> after;
+            st = walk_list(w, after, n_reg);
+            check_walk(k, st, "run", after);
+            if (st != 0) { list_ok = false; break; }
+            if (after != order) k.viol("run:changes-the-list-order", "before the run " + k.ostr(order) + " after " + k.ostr(after));
+        }
+        for (size_t i = 0; i < n; i++) {
+            if (w.created[i] != w.body[i] || w.setup[i] != w.body[i] || (!T[i].fails && w.teardown[i] != w.body[i]))
+                k.viol("exec:phases-of-one-test-unequal", "test " + k.tname((int) i) + ": created=" + std::to_string(w.created[i]) + " setup=" + std::to_string(w.setup[i]) + " body=" + std::to_string(w.body[i]) + " teardown=" + std::to_string(w.teardown[i]));
+        }
+        if (nontrivial) c.nontrivial("S" + sig);
+        c.count("setter_histories");
+        reg.setGroupFilters(nullptr); reg.setNameFilters(nullptr);
+        w.reg = nullptr;
+        destroy_world(w);
+    }
+    g_w = nullptr;
+}
+
+static void sec_setter_history(vf::Ctx& c) {
+    vf::Rng& r = c.rng;
+    auto sc = std::make_shared<SetterCase>();
+    Pools p = gen_pools(r, K, NK);
+    size_t n = r.chance(60) ? 1 + r.below(12) : gen_size(c);
+    gen_tests(r, n, p, sc->tests);
+    sc->held_back = (n && r.chance(30)) ? 1 + r.below(n < 3 ? n : 3) : 0;
+    size_t runs = 2 + r.below(4);
+    static const int W[] = { 24, 14, 6, 5, 5, 4, 7, 5, 8, 6, 6, 6, 4 };   // weights of the operation kinds, in MutKind order
+    for (size_t i = 0; i < runs; i++) {
+        std::vector<Mut> ms;
+        if (i == 0) {
+            if (r.chance(70)) { Mut m; m.kind = MU_SET_G; m.list = gen_filters(r, p.groups, K, NK, true, true); ms.push_back(m); }
+            if (r.chance(40)) { Mut m; m.kind = MU_SET_N; m.list = gen_filters(r, p.names, K, NK, true, true); ms.push_back(m); }
+            if (ms.size() == 2 && r.chance(50)) std::swap(ms[0], ms[1]);
+        }
+        size_t km = i == 0 ? r.below(2) : 1 + (r.chance(55) ? 0 : 1 + r.below(2));
+        for (size_t j = 0; j < km; j++) {
+            Mut m;
+            int x = (int) r.below(100), kind = 0;
+            while (kind < 12 && x >= W[kind]) { x -= W[kind]; kind++; }
+            m.kind = kind;
+            bool name_role = kind == MU_SET_N || kind == MU_MODIFY_N;
+            if (kind == MU_SET_G || kind == MU_SET_N) m.list = gen_filters(r, name_role ? p.names : p.groups, K, NK, true, true);
+            if (kind == MU_MODIFY_G || kind == MU_MODIFY_N) { m.how = (int) r.below(3); m.which = r.below(8); m.extra = gen_filter(r, name_role ? p.names : p.groups, K, NK, true); }
+            if (kind == MU_SHUFFLE) m.seed = gen_seed(r);
+            if (kind == MU_ADD) m.which = r.below(8);
+            ms.push_back(m);
+        }
+        sc->phases.push_back(ms);
+    }
+    exec_setters(c, sc);
+}
+
 static void gen_invocation(vf::Rng& r, const Pools& p, Invocation& iv) {
-    iv.gf = gen_filters(r, p.groups, KR, NKR);
-    iv.nf = gen_filters(r, p.names, KR, NKR);
+    iv.gf = gen_filters(r, p.groups, KR, NKR, false);
+    iv.nf = gen_filters(r, p.names, KR, NKR, false);
     iv.run_ignored = r.chance(30);
     iv.reverse = r.chance(30);
     if (r.chance(45)) { uint64_t s = gen_seed(r) & 0xFFFFFFFFull; iv.shuffle_seed = s ? s : 1; }
@@ -956,7 +1283,9 @@ int main(int argc, char** argv) {
         { "filter_single_table", N_SINGLE, N_SINGLE, sec_filter_single, true },
         { "filter_pair_table", N_PAIR, N_PAIR, sec_filter_pair, true },
         { "filter_group_x_name_table", N_CROSS, N_CROSS, sec_filter_cross, true },
+        { "filter_mode_requests_table", N_REQ, N_REQ, sec_filter_requests, true },
         { "registry_histories", 40000, 600000, sec_registry, false },
+        { "registry_setter_histories", 15000, 200000, sec_setter_history, false },
         { "order_operations", 15000, 200000, sec_order, false },
         { "order_operations_stubbed_rand", 8000, 100000, sec_order_stubbed, false },
         { "command_line_runner", 12000, 150000, sec_runner, false },
